@@ -1231,6 +1231,18 @@ func (ex *Executor) unop(st *State, f *Frame, in *ssa.UnOp) ctl {
 	x := ex.get(st, f, in.X)
 	switch in.Op {
 	case token.MUL: // load
+		if br, ok := x.(byteRefV); ok {
+			// one byte of opaque text: an uninterpreted function of text and position, within byte range
+			if i, ok := br.Idx.Int64(); ok && br.S.IsConst() && int(i) < len(br.S.S) {
+				ex.setReg(f, in, smt.IntC(int64(br.S.S[i])))
+				break
+			}
+			b := smt.App("uf_byteat", smt.Int, br.S, br.Idx)
+			st.addPC(smt.Ge(b, smt.IntC(0)))
+			st.addPC(smt.Le(b, smt.IntC(255)))
+			ex.setReg(f, in, b)
+			break
+		}
 		p, ok := x.(Ptr)
 		if !ok {
 			ex.abort("deref of %T", x)
@@ -1350,9 +1362,21 @@ func (ex *Executor) typeAssert(st *State, f *Frame, in *ssa.TypeAssert) {
 	ex.setReg(f, in, res)
 }
 
+// byteRefV is the address of one byte of a slice with opaque content; it can only be read
+type byteRefV struct{ S, Idx *smt.Term }
+
 func (ex *Executor) indexAddr(st *State, f *Frame, in *ssa.IndexAddr) {
 	x := ex.get(st, f, in.X)
 	idx := ex.get(st, f, in.Index).(*smt.Term)
+	if b, isB := x.(BytesV); isB {
+		content := ex.bytesContent(st, b)
+		n := ex.strLen(st, content)
+		if !ex.branch(st, smt.And(smt.Ge(idx, smt.IntC(0)), smt.Lt(idx, n))) {
+			ex.goPanic(st, "index out of range")
+		}
+		ex.setReg(f, in, byteRefV{S: content, Idx: idx})
+		return
+	}
 	i, ok := idx.Int64()
 	if !ok {
 		ex.abort("symbolic index in IndexAddr (%s)", f.Fn)
@@ -1745,6 +1769,9 @@ func (ex *Executor) appendOp(st *State, a0, a1 Val, dest ssa.Value) Val {
 			return BytesV{S: smt.Concat(b.S, y.S), Nil: smt.And(b.Nil, y.Nil)}
 		case *smt.Term:
 			return BytesV{S: smt.Concat(b.S, y), Nil: smt.False}
+		case SliceV:
+			t, _ := ex.bytesTerm(st, y)
+			return BytesV{S: smt.Concat(ex.bytesContent(st, b), t), Nil: smt.And(b.Nil, smt.BoolC(y.Arr == nil || y.Len == 0))}
 		}
 	}
 	s, ok := a0.(SliceV)
